@@ -96,7 +96,7 @@ class Interp(object):
             return z3.BoolVal(len(v.items) > 0)
         if isinstance(v, (VSeq,)):
             return z3.Length(v.z) > 0
-        if isinstance(v, VZip):
+        if isinstance(v, VZip) or getattr(v, 'kind', '') == 'unzipped':
             return z3.Length(v.cols[0].z) > 0
         if isinstance(v, VSet):
             return v.z != Z.empty_set(v.et.zsort)
@@ -126,7 +126,20 @@ class Interp(object):
         self.unsupported('truthiness of %r' % (v,))
 
     def is_true(self, ctx, v):
-        return ctx.branch(self.truth(ctx, v))
+        r = ctx.branch(self.truth(ctx, v))
+        if not r:
+            # an empty symbolic sequence is the empty sequence: say so explicitly,
+            # the solver then rewrites concatenations with it
+            zs = []
+            if isinstance(v, VSeq):
+                zs = [v.z]
+            elif isinstance(v, VZip) or getattr(v, 'kind', '') == 'unzipped':
+                zs = [c.z for c in v.cols]
+            elif isinstance(v, VRef) and isinstance(ctx.heap[v.rid], HList) and ctx.heap[v.rid].items is None:
+                zs = [ctx.heap[v.rid].z]
+            for zt in zs:
+                ctx.assume(zt == z3.Empty(zt.sort()))
+        return r
 
     # -- equality ----------------------------------------------------------------
     def eq(self, ctx, a, b, node=None):
@@ -181,7 +194,17 @@ class Interp(object):
             return sa[0] == sb[0]
         if isinstance(a, VNames) and isinstance(b, VNames):
             return a.z == b.z
-        qa, qb = self._as_seq(ctx, a), self._as_seq(ctx, b)
+        qa = self._as_seq(ctx, a) if isinstance(a, VSeq) or (isinstance(a, VRef) and isinstance(ctx.heap[a.rid], HList) and ctx.heap[a.rid].items is None) else None
+        qb = self._as_seq(ctx, b) if isinstance(b, VSeq) or (isinstance(b, VRef) and isinstance(ctx.heap[b.rid], HList) and ctx.heap[b.rid].items is None) else None
+        try:
+            if qa is None and qb is not None:
+                qa = self._as_seq(ctx, a, qb[1])
+            elif qb is None and qa is not None:
+                qb = self._as_seq(ctx, b, qa[1])
+            elif qa is None and qb is None:
+                qa, qb = self._as_seq(ctx, a), self._as_seq(ctx, b)
+        except TypeError:
+            qa = qb = None
         if qa is not None and qb is not None:
             if qa[1].zsort == qb[1].zsort:
                 return qa[0] == qb[0]
@@ -597,7 +620,11 @@ class Interp(object):
         args = []
         for a in node.args:
             if isinstance(a, ast.Starred):
-                sv = self.ev(ctx, fr, a.value)
+                sv = self.resolve(ctx, self.ev(ctx, fr, a.value))
+                if isinstance(sv, VZip) and len(node.args) == 1 and isinstance(fv, VBuiltin) and fv.name == 'zip':
+                    from .models2 import VUnzipped
+                    args.append(VUnzipped(sv.cols))
+                    continue
                 args.extend(self.iter_concrete(ctx, sv, a))
             else:
                 args.append(self.ev(ctx, fr, a))
